@@ -265,7 +265,8 @@ impl<'w> Exec for Exec11<'w> {
                     return StepOut::fail(obs, viol(format!("C11/preview/matches_{}", why), idx, (&ev, switch), (&k, &v)));
                 }
                 let ok_kind = if *n == 0 {
-                    k == PeekKind::Matches
+                    // "all 0 found" and "nothing found" both describe an empty preview
+                    k == PeekKind::Matches || k == PeekKind::NotFound
                 } else if let Some(target) = switch {
                     if ev.len() == *n {
                         mark("probe.peek_n_found_and_switch");
